@@ -214,8 +214,10 @@ def history(rnd, idx, tier):
                 p.style = dict(p.style, rule_prefix=rnd.choice(["r", "rule_", "cc", "x-y."]))
             elif which < 0.7:
                 p.style = dict(p.style, comments=not p.style.get("comments"), blank=rnd.random() < 0.5)
-            elif which < 0.85:
+            elif which < 0.8:
                 p.style = dict(p.style, cmdvars=not p.style.get("cmdvars"))
+            elif which < 0.9:
+                p.style = dict(p.style, sharedrule=not p.style.get("sharedrule"))
             else:
                 a = rnd.randint(1, n); b = rnd.randint(a, n)
                 st = dict(p.style); st["include"] = (a, b); p.style = st
